@@ -1,7 +1,7 @@
 """C17 - indexing a tainted fixed-size array is bounds-checked for every index type."""
 import re
 from .. import facts, q, abi
-from ..common import is_check_fn, site
+from ..common import is_check_fn, stmt_always_aborts, site
 from ..interval import Evaluator, Inconclusive as IvInconclusive, trange, merge, intersect, complement
 from ..engine import Engine, Inconclusive, C, fmt
 from . import ops
@@ -36,6 +36,12 @@ def find_bound_check(db, f):
                 env2 = {k: v for k, v in env.items() if k != found["var"]}
                 found["A"] = Evaluator({found["var"]}, env2).sat(e["args"][0], dom)
         elif s == "if":
+            if stmt_always_aborts(st.get("then")) and st.get("else") is None and "var" in found and "A" not in found:
+                # the same check written as `if (!(cond)) abort`: the accepted set is the complement of the aborting condition
+                dom = [trange(found["t"])]
+                env2 = {k: v for k, v in env.items() if k != found["var"]}
+                found["A"] = complement(Evaluator({found["var"]}, env2).sat(st["c"], dom), dom)
+                return
             walk(st.get("then") or {"s": "null"})
             if st.get("else"):
                 walk(st["else"])
